@@ -94,7 +94,8 @@ RULES = [
     (r"ast_grep::scan::ScanStdin as .*::parse_stdin$", r"index", None, "SAFE", "rules come from read_rule_file/from_yaml_string, which deserialise at least one YAML document or fail"),
     (r"ast_grep::print::Diff::<'n>::generate$", r"assert:overflow_Add", None, "SAFE", "position + deleted_length <= source length"),
     (r"ast_grep::print::(colored_print|cloud_print|interactive_print)::.*", r"assert:overflow_(Add|Sub)", None, "SAFE", CNT),
-    (r"ast_grep::print::colored_print::.*|ast_grep::print::interactive_print::apply_rewrite$", r"index", None, "ASSUMED", "slices use Diff.range / node ranges of the same source (value level, C06/C16)"),
+    (r"ast_grep::print::interactive_print::apply_rewrite$", r"index", None, "ASSUMED", "each slice runs from the end of the previous accepted edit to the start of the next (or to the end of the text): in range because Diff.range lies in the source (value level) and ordered because the accept loop only lets through a diff that starts at or after the end of the last accepted one (checked)", {"guard": "accept_loop_orders_diffs"}),
+    (r"ast_grep::print::colored_print::.*", r"index", None, "ASSUMED", "slices use Diff.range / node ranges of the same source (value level, C06/C16)"),
     (r"ast_grep::print::interactive_print::InteractivePrinter::<P>::prompt_(edit|view)$", r"expect", None, "STARTUP-ONLY", "interactive terminal prompt I/O, not rule or source controlled"),
     (r"ast_grep::print::interactive_print::open_in_editor$", r"assert", None, "SAFE", CNT),
     (r"ast_grep::utils::args::NoIgnore::walk$", r"expect", None, "SAFE", "clap supplies the default path `.` when none is given"),
